@@ -522,40 +522,64 @@ def rule_float_conversion(repo: Repo) -> List[Ob]:
                     r |= defs.roots(a)
             else:
                 r = defs.roots(ast.parse(f"{selfn}.{sk}").body[0].value)
-            ok = any(x.endswith("float_to_rational") for x in r if x.startswith("call:"))
-            # and the conversion is applied exactly to Floats
-            guarded = False
-            c = cfg_of(f.node)
-            for cv in convs:
-                tests = controlling_tests(c, node_for(c, cv))
-                if any("is_Float" in src(t.ast) and reach is True for t, reach in tests):
-                    guarded = True
-            if not ok:
-                # the conversion may live in a helper of the class / module that the values are routed through
-                helpers = []
-                for x in r:
-                    if x.startswith("call:"):
-                        nm = x[5:].split(".")[-1]
-                        h = (f.cls.find_method(nm) if f.cls else None) or next((g for g in repo.functions if g.module is f.module and g.cls is None and g.name == nm), None)
-                        if h is not None:
-                            helpers.append(h)
-                from ..shape import helper_calls
-                for h in list(helpers):
-                    helpers += [hh for hh, _, _ in helper_calls(repo, h, depth=2) if hh not in helpers]
-                for h in helpers:
-                    hc = cfg_of(h.node)
-                    for cv in _calls(h.node, "float_to_rational"):
-                        ok = True
-                        tests = controlling_tests(hc, node_for(hc, cv))
-                        if any("is_Float" in src(t.ast) and reach is True for t, reach in tests) or any(isinstance(x2, ast.IfExp) and "is_Float" in src(x2.test) for x2 in ast.walk(h.node)):
-                            guarded = True
-            if ok and not guarded:
-                obs.append(inconclusive("E-float", f"{rp}::{qn}::{sk}", rp, f.node.lineno, qn, "float_to_rational is applied but the is_Float test was not recognised"))
-                continue
-            ok = ok and guarded
-            obs.append(Ob("E-float", f"{rp}::{qn}::{sk}", rp, f.node.lineno, qn, ok,
-                          f"values stored via `{sk}` pass the is_Float -> float_to_rational conversion" if ok else
-                          f"values stored via `{sk}` do not pass through float_to_rational: a decimal literal stays a binary float"))
+            # functions the stored value is routed through (same class / module, or a unique module-level function of the repo)
+            from ..shape import helper_calls
+            route: List[FunctionInfo] = [f]
+            for x in sorted(r):
+                if x.startswith("call:"):
+                    nm = x[5:].split(".")[-1]
+                    if nm == "float_to_rational":
+                        continue
+                    h = (f.cls.find_method(nm) if f.cls else None) or next((g for g in repo.functions if g.module is f.module and g.cls is None and g.name == nm), None)
+                    if h is None:
+                        cands = [g for g in repo.functions if g.cls is None and g.name == nm and not g.relpath.startswith("tests/")]
+                        h = cands[0] if len(cands) == 1 else None
+                    if h is not None and h not in route:
+                        route.append(h)
+            for h in list(route[1:]):
+                route += [hh for hh, _, _ in helper_calls(repo, h, depth=2) if hh not in route]
+            # every call of the single-number converter on that route: what is converted, and under which test
+            modes = []     # "deep" (all float atoms), "coefficients" (every coefficient of the expanded polynomial), "whole" (only a value that is a float as a whole)
+            unguarded = False
+            for g in route:
+                gdefs = Defs(g.node, g.params()[0] if g.params() and g.cls is not None else None)
+                gc = cfg_of(g.node)
+                for cv in _calls(g.node, "float_to_rational"):
+                    if g is f and not any(x.endswith("float_to_rational") for x in r if x.startswith("call:")):
+                        continue
+                    arg = cv.args[0] if cv.args else None
+                    rts = gdefs.roots(arg) if arg is not None else set()
+                    if isinstance(arg, ast.Name):
+                        # comprehension variables are not in Defs: look at the generator the name is bound by
+                        for anc in ancestors(cv):
+                            if isinstance(anc, (ast.DictComp, ast.ListComp, ast.SetComp, ast.GeneratorExp)):
+                                for gen in anc.generators:
+                                    if arg.id in {n.id for n in ast.walk(gen.target) if isinstance(n, ast.Name)}:
+                                        rts |= gdefs.roots(gen.iter)
+                    if any(x.endswith("atoms") for x in rts if x.startswith("call:")):
+                        modes.append("deep")
+                        continue
+                    tests = controlling_tests(gc, node_for(gc, cv))
+                    is_float = any("is_Float" in src(t.ast) and reach is True for t, reach in tests) or \
+                        any(isinstance(x2, ast.IfExp) and "is_Float" in src(x2.test) for x2 in ancestors(cv))
+                    if not is_float:
+                        unguarded = True
+                        continue
+                    modes.append("coefficients" if any(x.endswith("get_monoms") for x in rts if x.startswith("call:")) else "whole")
+            key = f"{rp}::{qn}::{sk}"
+            if not modes and unguarded:
+                obs.append(inconclusive("E-float", key, rp, f.node.lineno, qn, "float_to_rational is applied but the is_Float test was not recognised"))
+            elif not modes:
+                obs.append(Ob("E-float", key, rp, f.node.lineno, qn, False,
+                              f"values stored via `{sk}` do not pass through float_to_rational: a decimal literal stays a binary float"))
+            elif "deep" in modes or "coefficients" in modes:
+                obs.append(Ob("E-float", key, rp, f.node.lineno, qn, True,
+                              f"every float occurring in a value stored via `{sk}` is converted through its decimal text ({'all float atoms' if 'deep' in modes else 'every coefficient'})"))
+            else:
+                obs.append(Ob("E-float", key, rp, f.node.lineno, qn, True, f"a value stored via `{sk}` that is a float as a whole is converted through its decimal text"))
+                obs.append(Ob("E-float", key + "::nested-floats", rp, f.node.lineno, qn, False,
+                              f"a value stored via `{sk}` is converted only if it is a float as a whole: decimal literals inside a compound expression "
+                              "(0.5*p, pi/4 - 0.1) stay binary floats and the results are still reported as exact"))
     return obs
 
 
